@@ -173,7 +173,20 @@ def gen_dag(rnd, *, cycle=None, pull_prob=0.25, parallel_prob=0.25, offsets=True
                 links.append(dict(src=src, dst=[p["name"], 0], chain=up))
                 up = [a for a in draw_chain(rnd, maxlen=1, allow_push=False, allow_delay=False)]
                 src = [p["name"], 0]
+            twin = nchain == 1 and kind != "back" and rnd.random() < 0.3
+            if twin:
+                # stateful (to-pull) and integration adapters serve one request per consumer step: not below a fan-out
+                for ln2 in links:
+                    if ln2["dst"][0] == src[0]:
+                        ln2["chain"] = [a for a in ln2["chain"] if a[0] not in ("dpull", "avg", "sum", "dpush")]
+                        ln2["stateless_only"] = True
+                # the pull-based component's output feeds two inputs of the consumer: first a delayed one
+                # (delay <= smallest consumer step keeps the requests reaching the producer monotone), then a direct one
+                down = [["dfix", rnd.choice([0.5, min(comps[j]["steps"])])]]
             links.append(dict(src=src, dst=[f"c{j}", dst_in], chain=down))
+            if twin:
+                links.append(dict(src=src, dst=[f"c{j}", comps[j]["nin"]], chain=[]))
+                comps[j]["nin"] += 1
         else:
             links.append(dict(src=[f"c{i}", 0], dst=[f"c{j}", dst_in], chain=chain))
     order = list(range(len(comps)))
